@@ -97,6 +97,9 @@ def oracle(req, impl):
         return None
     if "!LEAK" in impl:
         return "memory leaked"
+    for bad in ("later-insert=", "unreadable@", "size="):
+        if bad in impl:
+            return "the caller's list is not usable as a list after the call: " + impl.split(bad, 1)[1].split()[0].join([bad, ""])
     if "!NAMES" in impl or "setup-failed" in impl:
         return "cif_loop_get_names: wrong number of names / set-up failed"
     for mark, what in (("!COUNT", "the list lost or gained elements"), ("!ELEM", "the target element is no longer retrievable"),
